@@ -150,7 +150,7 @@ def rule_dispatch_table(col, facts):
             cands = []
             for _bb, c, _a, _d, _t in f.calls():
                 for h in facts.by_short.get(callee_name(c), []):
-                    if h.crate == f.crate and h.short != f.short and any(callee_name(c2).endswith("::" + sfx) for _b2, c2, _a2, _d2, _t2 in h.calls() for sfx in names):
+                    if h.crate == f.crate and h.short != f.short and not h.impl_trait and any(callee_name(c2).endswith("::" + sfx) for _b2, c2, _a2, _d2, _t2 in h.calls() for sfx in names):
                         cands.append(h)
             if len({h.short for h in cands}) == 1:
                 f = cands[0]
